@@ -430,19 +430,24 @@ def judge_errmsg(ctx, cfg, n):
     ctx.count('custom-error-messages', len(lines))
     return v
 
-def judge_state_isolation(ctx, cfg, n):
+def judge_state_isolation(ctx, cfg, n, toks=None, lasts=None, types='vsdfubin'):
     """ONE Deserializer read step by step (public API: T::deserialize(&mut de) repeatedly), failures swallowed: what the LAST step yields (a Value) must not
     depend on which TYPES were requested for the earlier tokens — every typed request on a scalar token consumes exactly that token, also when it fails.
     (A flag left set on an error path — single precision, a scratch buffer, a depth counter — shows up as a dependence.)  Implementation vs implementation."""
     rng = ctx.rng
+    toks0, lasts0 = toks, lasts
     toks = [b'"n/a"', b'"x"', b'null', b'true', b'1', b'300', b'-1', b'0.1', b'1e39', b'3e38', b'16777217.5', b'1e400', b'5e-324', b'0.30000000000000004', b'123456789012345678901234567890', b'-0']
     lasts = [b'0.1', b'16777217.5', b'1e39', b'[0.1, 3e38]', b'{"a":0.30000000000000004}', b'"s"', b'[1e-50]', b'123456789.123456789']
+    if toks0:
+        toks = toks0
+    if lasts0:
+        lasts = lasts0
     lines, groups = [], []
     for _ in range(n):
         k = rng.choice([1, 2, 3])
         seq = [rng.choice(toks) for _ in range(k)] + [rng.choice(lasts)]
         text = b' '.join(seq)
-        variants = ['v' * k + 'v'] + [''.join(rng.choice('vsdfubin') for _ in range(k)) + 'v' for _ in range(3)]
+        variants = ['v' * k + 'v'] + [''.join(rng.choice(types) for _ in range(k)) + 'v' for _ in range(3)]
         for src in ('b', 'r'):
             idx = []
             for t in variants:
@@ -453,8 +458,16 @@ def judge_state_isolation(ctx, cfg, n):
     v = []
     for text, variants, idx in groups:
         last = [outs[i].split(',')[-1] for i in idx]
-        if len(set(last)) != 1:
-            j = next(j for j in range(len(last)) if last[j] != last[0])
+        # every step requested as a Value must yield the same thing in every variant that requests a Value there (variant 0 requests Values throughout)
+        steps = [outs[i].split(',') for i in idx]
+        bad = None
+        if all(len(st) == len(variants[0]) for st in steps):
+            for j, (t, st) in enumerate(zip(variants, steps)):
+                if any(t[q] == 'v' and st[q] != steps[0][q] for q in range(len(t))):
+                    bad = j
+                    break
+        if len(set(last)) != 1 or bad is not None:
+            j = bad if bad is not None else next(j for j in range(len(last)) if last[j] != last[0])
             v.append({'what': 'result-depends-on-types-requested-earlier', 'cfg': cfg, 'input': hx(text), 'expected': 'types %s: %s' % (variants[0], outs[idx[0]][:200]),
                       'actual': 'types %s: %s' % (variants[j], outs[idx[j]][:200]), 'shrinkable': False})
         elif not ctx.quiet and last[0].startswith('ok'):
@@ -1234,6 +1247,40 @@ def judge_c19_driven(ctx, cfg, docs):
     ctx.count('raw-driven-sequences', len(seqs) * 4)
     return v
 
+def judge_c19_rawde(ctx, cfg):
+    """`impl Deserializer for &RawValue` / IntoDeserializer / to_raw_value (raw.rs): T::deserialize(&*raw) for the universal seed on a captured text vs the model
+    (Model/RawDe.v = the typed parser on a str reader WITHOUT the trailing check, literally the code), vs from_str::<T>(raw.get()) where C19_raw_de_vs_from_str says
+    they agree (everything except a 128-bit integer target at the head of a fraction/exponent literal), and to_raw_value(x) re-captured verbatim"""
+    import rawde_gen as G
+    rng = ctx.rng
+    L = ctx.letters(cfg)
+    types = G.TYPES if ctx.tier == 'thorough' else G.TYPES[::3] + ['i4', 'n4', 'oi4', 'wn4']
+    pairs = [(t, x) for t in types for x in G.TEXTS]
+    pairs += [(t, x) for t in ['b', 'i4', 'v', 'ai0'] for x in G.NOT_JSON]
+    for _ in range(2000 if ctx.tier == 'quick' else 30000):
+        pairs.append((rng.choice(G.TYPES), G.rand_text(rng)))
+    rd = ['rd %s %s %s' % (L, t, hx(x.encode())) for t, x in pairs]
+    rs = ['rs' + l[2:] for l in rd]
+    rtr = [l.replace('rtr - ', 'rtr %s ' % L, 1) for l in G.rtr_cases()]
+    cases = rd + rs + rtr
+    io, mo = ctx.both(cfg, cases, impl_name='sjh_rawde', model_name='sjdriver_rawde')
+    v, n = [], len(rd)
+    for i, (c, a, m) in enumerate(zip(cases, io, mo)):
+        parts = a.split(' DIFF-')
+        head, flags = parts[0], parts[1:]
+        f = c.split(' ')
+        rec = {'cfg': cfg, 'op': f[0], 'ty': f[2], 'input': f[3] if len(f) > 3 else '', 'shrinkable': False}
+        if head != m:
+            v.append(dict(rec, what='rawvalue-deserializer-differs-from-model', expected='proved model: ' + m[:300], actual=a[:300]))
+        elif any(fl != 'from_str' for fl in flags):
+            v.append(dict(rec, what='rawvalue-' + '-'.join(flags), expected='into_deserializer = deserialize(&raw); to_raw_value text re-captured verbatim', actual=a[:300]))
+        elif i < n and (('from_str' in flags) != (mo[i] != mo[n + i])):
+            v.append(dict(rec, what='rawvalue-deserializer-vs-from_str', expected='differs from from_str::<T>(raw.get()) exactly where the model does (128-bit head on a fraction/exponent literal)', actual=a[:300]))
+        elif head.startswith('ok'):
+            ctx.distinct_nontrivial += 1
+    ctx.count('rawvalue-as-deserializer', len(cases))
+    return v
+
 def run_c19(ctx):
     ctx.rule = ('Box<RawValue> and IgnoredAny over the exhaustive 4-token space, generated documents with every whitespace placement, and their mutations, slice and '
                 '1-byte reader; captured span and accept/reject compared with the model (proved: exactly the source text of one value; scanner = RFC 8259 grammar minus '
@@ -1250,6 +1297,7 @@ def run_c19(ctx):
         rd = list(raw_docs(ctx, 1500 if ctx.tier == 'quick' else 15000)) + ws_docs + list(itertools.islice(gen.enum_tokens(3), 0, None, 3))
         ctx.violations += judge_c19_raw(ctx, cfg, rd)
         ctx.violations += judge_c19_driven(ctx, cfg, rd)
+        ctx.violations += judge_c19_rawde(ctx, cfg)
 
 PARSER_TB = ['modelled, not verified: std::io::Bytes (one-byte reads, Interrupted retried), memchr, str::from_utf8, BTreeMap/IndexMap insert, rustc float literal parsing (POW10), IEEE arithmetic of f64 (Flocq model)',
              'the three readers are abstracted to one cursor (rest, off, peeked) — tied by running str/slice/reader sources with chunk schedules']
